@@ -6,6 +6,7 @@ package c10
 import (
 	"context"
 	"fmt"
+	"math"
 	"math/rand/v2"
 	"os"
 	"strings"
@@ -123,6 +124,7 @@ func TestC10(t *testing.T) {
 			}
 			// final: the whole log by a chain of reads with varying limits, from the oldest offset
 			for _, s := range ss {
+				beyondEnd(ctx, kind, scratch, s, viol)
 				chain(ctx, rng, s, viol, fl)
 				if s.sibling != nil {
 					s.sibling.Close()
@@ -212,7 +214,7 @@ func pick(rng *rand.Rand, s *sut) ebu.Offset {
 	return k[rng.IntN(len(k))]
 }
 
-var limits = []int{-1, 0, 1, 2, 3, 7, 1000}
+var limits = []int{-1, 0, 1, 2, 3, 7, 1000, math.MaxInt}
 
 func pickLimit(rng *rand.Rand, s *sut) int {
 	if s.strict {
@@ -342,14 +344,19 @@ func doStream(ctx context.Context, rng *rand.Rand, s *sut, viol violFn) {
 	from := pick(rng, s)
 	pos, _ := s.ref.Pos(from)
 	origin := s.ref.OriginOf(from)
-	i := 0
+	// a consumer may keep what the stream yields: collect first, compare afterwards
+	var collected []*ebu.StoredEvent
 	for e, err := range st.ReadStream(ctx, from) {
 		if err != nil {
 			viol(s, "stream-error", origin, fmt.Sprintf("ReadStream(%q) yielded error %v", from, err))
 			return
 		}
+		collected = append(collected, e)
+	}
+	i := 0
+	for _, e := range collected {
 		if m := s.ref.Match(pos+i, e, s.byteExact); m != "" {
-			viol(s, "stream-mismatch", origin, fmt.Sprintf("ReadStream(%q): element %d is not event %d of the log: %s", from, i, pos+i, m))
+			viol(s, "stream-mismatch", origin, fmt.Sprintf("ReadStream(%q): element %d (kept by the consumer until the stream ended) is not event %d of the log: %s", from, i, pos+i, m))
 			return
 		}
 		if c, old := s.ref.Learn(e.Offset, pos+i+1, reflog.FromEvent); c {
@@ -399,5 +406,35 @@ func doLoad(ctx context.Context, rng *rand.Rand, s *sut, viol violFn) {
 	}
 	if got != want {
 		viol(s, "loadoffset-mismatch", "", fmt.Sprintf("LoadOffset(%q) = %q, last saved %q", id, got, want))
+	}
+}
+
+// beyondEnd: an offset that lies beyond the newest event (a position saved against a longer log of
+// the same kind of store) has no events after it.
+func beyondEnd(ctx context.Context, kind, scratch string, s *sut, viol violFn) {
+	if s.fam == "durable" {
+		return // the server rejects offsets it never issued
+	}
+	longer, err := stores.Open(kind, scratch)
+	if err != nil {
+		return
+	}
+	defer func() { longer.Close(); longer.Remove() }()
+	var off ebu.Offset
+	for i := 0; i < len(s.ref.Events)+3; i++ {
+		off, _ = longer.Store.Append(ctx, &ebu.Event{Type: "x", Data: []byte(`1`)})
+	}
+	evs, _, err := s.o.Store.Read(ctx, off, 0)
+	if err != nil || len(evs) != 0 {
+		viol(s, "read-beyond-end", "", fmt.Sprintf("Read(%q, 0) from an offset beyond the newest event (log length %d) returned %d events, err %v", off, len(s.ref.Events), len(evs), err))
+	}
+	if st, ok := s.o.Store.(ebu.EventStoreStreamer); ok {
+		n := 0
+		for range st.ReadStream(ctx, off) {
+			n++
+		}
+		if n != 0 {
+			viol(s, "stream-beyond-end", "", fmt.Sprintf("ReadStream(%q) from an offset beyond the newest event yielded %d elements", off, n))
+		}
 	}
 }
